@@ -1,3 +1,134 @@
 import VpnCloud.Model.Node
+import VpnCloud.Proofs.Lemmas.NodeLemmas
+/-
+  C08 — unauthenticated datagrams: a handshake datagram that `read_from` rejects under the node's trusted
+  keys, and a non-handshake datagram from an unknown address, are dropped without panic, output or change
+  of peers / pending handshakes / routes.  Both statements are proved as given (no hypothesis added).
+-/
 namespace VpnCloud.Proofs.C08
+
+open VpnCloud VpnCloud.Node
+open VpnCloud.Proofs.NodeLemmas
+
+/-- a node state is *regular* if every session it holds verifies handshake messages against the node's trusted keys -/
+def Regular (n : Node) : Prop :=
+  (∀ a p, (a, p) ∈ n.peers → ∀ i, p.crypto.init = some i → i.trusted = n.cfg.trusted) ∧
+  (∀ a pc, (a, pc) ∈ n.pending → ∀ i, pc.init = some i → i.trusted = n.cfg.trusted)
+
+/-- the outcome of the session layer for a rejected handshake datagram, applied to a stored session: nothing but counters changes -/
+private theorem applyOutcome_reject (env : CryptoEnv) (bodyOf : Init.BodyOf) (o : Oracle) (n : Node) (now : Int) (src : NAddr)
+    (rest tail : Bytes) (e : InitErr) (rnd : Rand) (rr : RotRand) (inPeers : Bool) (pc : PeerCrypto)
+    (htr : ∀ i, pc.init = some i → i.trusted = n.cfg.trusted)
+    (hin : if inPeers = true then (lookupA n.peers src).isSome = true else (lookupA n.pending src).isSome = true)
+    (hne : rest ≠ []) (h : InitMsg.readFrom env rest n.cfg.trusted = .error e) :
+    let r := applyOutcome env o { node := n } now src inPeers
+      (PeerCrypto.handleMessage env bodyOf payloadOk pc (Generated.INIT_MESSAGE_FIRST_BYTE :: rest) tail rnd rr)
+    Quiet n (finish src r).1 := by
+  obtain ⟨pc', e', hm, hnf⟩ := handleMessage_reject env bodyOf payloadOk pc n.cfg.trusted rest tail rnd rr e htr hne h
+  intro r
+  have hr : r = applyOutcome env o { node := n } now src inPeers (.err pc' e') := by
+    show applyOutcome _ _ _ _ _ _ _ = _
+    rw [hm]
+  obtain ⟨h2, hq⟩ := applyOutcome_err_quiet env o n now src inPeers pc' e' hin
+  rw [← hr] at h2 hq
+  have : finish src r = r := by
+    rcases r with ⟨c, e2⟩
+    apply finish_of_not_fatal
+    simp only at h2
+    rw [h2]
+    intro h3
+    exact hnf (Option.some.inj h3)
+  rw [this]
+  exact hq
+
+private theorem responder_reject (env : CryptoEnv) (bodyOf : Init.BodyOf) (o : Oracle) (n : Node) (now : Int) (src : NAddr)
+    (rest tail : Bytes) (e : InitErr) (rnd : Rand) (rr : RotRand) (hash : Option Bytes)
+    (hne : rest ≠ []) (h : InitMsg.readFrom env rest n.cfg.trusted = .error e) :
+    Quiet n (finish src (responder env bodyOf o n now src (Generated.INIT_MESSAGE_FIRST_BYTE :: rest) tail rnd rr hash)).1 := by
+  obtain ⟨pc', e', hm, hnf⟩ := handleMessage_reject env bodyOf payloadOk (newAttempt n (hash.getD [])) n.cfg.trusted rest tail rnd rr e
+    (by intro i hi; simp only [newAttempt] at hi; cases hi; rfl) hne h
+  unfold responder
+  simp only [hm]
+  rw [finish_of_not_fatal _ _ _ (by intro h3; exact hnf (Option.some.inj h3))]
+  exact ⟨rfl, rfl, rfl, rfl, rfl, rfl⟩
+
+/-- **unauth_no_panic** (handshake datagrams): a datagram with the handshake marker whose content `read_from` rejects under the node's trusted keys is dropped:
+    no panic, nothing sent, nothing written to the interface, peers / pending handshakes / routes unchanged -/
+theorem node_reject_pure (env : CryptoEnv) (bodyOf : Init.BodyOf) (o : Oracle) (n : Node) (now : Int) (src : NAddr) (rest tail : Bytes) (e : InitErr)
+    (hreg : Regular n) (hne : rest ≠ []) (h : InitMsg.readFrom env rest n.cfg.trusted = .error e) :
+    let r := handleNet env bodyOf o n now src (Generated.INIT_MESSAGE_FIRST_BYTE :: rest) tail
+    r.1.panicked = false ∧ r.1.outs = [] ∧ r.1.node.table = n.table ∧
+    r.1.node.peers.map (·.1) = n.peers.map (·.1) ∧ r.1.node.pending.map (·.1) = n.pending.map (·.1) ∧ r.1.node.own = n.own := by
+  show Quiet n (handleNet env bodyOf o n now src (Generated.INIT_MESSAGE_FIRST_BYTE :: rest) tail).1
+  rw [handleNet_eq]
+  unfold dispatch
+  simp only [List.head?_cons, if_true]
+  cases hp : lookupA n.peers (mappedAddr src) with
+  | some p =>
+    have hpm := lookupA_some_mem hp
+    cases hq : lookupA n.pending (mappedAddr src) with
+    | some pc =>
+      simp only []
+      exact applyOutcome_reject env bodyOf o n now _ rest tail e _ _ false pc (hreg.2 _ _ (lookupA_some_mem hq))
+        (by simp [hq]) hne h
+    | none =>
+      simp only []
+      by_cases hc : p.crypto.init.isSome = true
+      · rw [if_pos hc]
+        exact applyOutcome_reject env bodyOf o n now _ rest tail e _ _ true p.crypto (hreg.1 _ _ hpm)
+          (by simp [hp]) hne h
+      · rw [if_neg hc]
+        exact responder_reject env bodyOf o n now _ rest tail e _ _ _ hne h
+  | none =>
+    cases hq : lookupA n.pending (mappedAddr src) with
+    | some pc =>
+      simp only []
+      exact applyOutcome_reject env bodyOf o n now _ rest tail e _ _ false pc (hreg.2 _ _ (lookupA_some_mem hq))
+        (by simp [hq]) hne h
+    | none =>
+      simp only []
+      exact responder_reject env bodyOf o n now _ rest tail e _ _ _ hne h
+
+/-- a datagram without the handshake marker from an address that is neither a peer nor has a handshake pending is ignored -/
+theorem unknown_sender_ignored (env : CryptoEnv) (bodyOf : Init.BodyOf) (o : Oracle) (n : Node) (now : Int) (src : NAddr) (data tail : Bytes)
+    (hinit : data.head? ≠ some Generated.INIT_MESSAGE_FIRST_BYTE)
+    (hp : lookupA n.peers (mappedAddr src) = none) (hq : lookupA n.pending (mappedAddr src) = none) :
+    let r := handleNet env bodyOf o n now src data tail
+    r.1.panicked = false ∧ r.1.outs = [] ∧ r.1.node = { n with droppedIn := n.droppedIn + 1 } := by
+  rw [handleNet_eq]
+  unfold dispatch
+  simp only [hp, hq, hinit, if_false]
+  rw [finish_of_not_fatal _ _ _ (by simp)]
+  exact ⟨rfl, rfl, rfl⟩
+
+/-! ## non-vacuity: the hypotheses are satisfiable (toy cryptography of `InitLemmas.Toy`) -/
+section NonVacuity
+open VpnCloud.Proofs.InitLemmas
+
+private def s : NAddr := .v6 (List.replicate 16 0) 1
+/-- a node with one established peer whose session still holds a handshake object, and one pending handshake -/
+private def n : Node :=
+  { nodeId := List.replicate 16 9, addr := .v6 (List.replicate 16 0) 3,
+    cfg := { tap := false, learning := false, broadcast := false, peerTimeout := 300, peerTimeoutPublish := 300, updateFreq := 10,
+             claims := [], key := [7, 7, 7, 7], trusted := [[9, 9, 9, 9]], algos := Toy.algos },
+    peers := [(s, { addrs := [], timeout := 0, peerTimeout := 300, nodeId := List.replicate 16 1, crypto := { init := some Toy.st } })],
+    pending := [(.v6 (List.replicate 16 0) 2, { init := some Toy.st })],
+    table := { cacheTimeout := 300, claimTimeout := 300 } }
+
+example : Regular n := by
+  constructor
+  · intro a p hm i hi
+    simp only [n, List.mem_singleton, Prod.mk.injEq] at hm
+    obtain ⟨_, rfl⟩ := hm
+    cases hi; rfl
+  · intro a pc hm i hi
+    simp only [n, List.mem_singleton, Prod.mk.injEq] at hm
+    obtain ⟨_, rfl⟩ := hm
+    cases hi; rfl
+
+/-- a pong with an altered signed byte is rejected under the node's trusted keys -/
+example : InitMsg.readFrom Toy.env ((Toy.pong Toy.algos 0).set 1 7) n.cfg.trusted = .error .crypto := by decide
+
+end NonVacuity
+
 end VpnCloud.Proofs.C08
